@@ -43,12 +43,16 @@ PROPS = {
     'C09': dict(groups=['fen'], ops={'pfen': ['c'] + POSKEYS_ABS + ['pm', 'cm', 'comb', 'pin', 'chk', 'term', 'hash', 'g']}),
     'C10': dict(groups=['parse', 'fen', 'pgn'], ops={'pmove': ['r', 'rr'], 'psq': ['r'], 'pfile': ['r'], 'prank': ['r'],
                                               'ppiece': ['r'], 'g.frompgn': ['r'], 'pfen': ['b', 'c', 'g'], 'g.pgn': ['rt']},
-                classes_only={'pfen': ['b', 'c', 'g'], 'g.pgn': ['rt']}),
+                classes_only={'pfen': ['b', 'c', 'g'], 'g.pgn': ['rt'], 'g.frompgn': ['r']}),
     'C11': dict(groups=['game'], ops={'g.new': ['status', 'cnt', 'cnts'], 'g.act': ['status', 'cnt', 'cnts']}),
     'C12': dict(groups=['game'], ops={'g.new': ['status', 'tag', 'hlen'], 'g.act': ['r', 'status', 'tag', 'hlen', 'fen', 'hash', 'cnts']}),
     'C13': dict(groups=['game'], ops={'g.hist': ['text', 'lookup', 'flags', 'chain'], 'g.act': ['hlen']}),
     'C14': dict(groups=['san'], ops={'sanall': ['sans', 'dup', 'illegal']}),
-    'C15': dict(groups=['pgn'], ops={'g.pgn': ['tags', 'words', 'rt'], 'rx': ['sec', 'nsec', 'moves', 'n', 'res', 'rx']}),
+    # g.frompgn (parse group): the importer on ARBITRARY text (example files, exports, mutations, garbage) against the model
+    # importer.  C15 itself speaks about the library's own exports only, so a difference there is a broken correspondence
+    # (`corr`: reported with no-failing-input-found), not by itself a failing input of C15.
+    'C15': dict(groups=['pgn', 'parse'], ops={'g.pgn': ['tags', 'words', 'rt'], 'rx': ['sec', 'nsec', 'moves', 'n', 'res', 'rx'],
+                                             'g.frompgn': ['r', 'st', 'n', 'fen']}, corr_only={'g.frompgn'}),
     'C16': dict(groups=['parse'], ops={'pmove': ['r', 'rr']}, only_if={'pmove': ('r', 'ok')}),
     'C17': dict(groups=['tables'], ops={'tbl': ['v'], 'prim': ['v']}),
     'C18': dict(groups=['prims'], ops={'prim': ['v'], 'bb': ['list', 'cnt', 'lo', 'hi', 'alg', 'dbg']}),
@@ -394,7 +398,8 @@ def compare_group(prop, group, rundir, stats):
                 continue
             if iv == mv:
                 continue
-            findings.append(Finding(prop, group, lineno, opl, op, k, iv, mv, sv, 'decisive', list(session_ops)))
+            findings.append(Finding(prop, group, lineno, opl, op, k, iv, mv, sv,
+                                    'corr' if op in spec.get('corr_only', ()) and iv != 'panic' else 'decisive', list(session_ops)))
     stats['evaluations'] += n
     stats['distinct'] += len(distinct)
     stats['samples'].extend(samples)
